@@ -1,6 +1,6 @@
 -------------------------- MODULE SelObjective_Trace --------------------------
 (* Validates latent vectors and assembled objectives of the real selection problems in all encodings.  *)
-(* record: fam ("lin" | "family" | "quad" | "ocs" | "l1" | "l2" | "pafd"), c (contribution vector),     *)
+(* record: fam ("lin" | "family" | "quad" | "ocs" | "l1" | "l2" | "pafd" | "pau" | "mogs"), c (contribution vector),     *)
 (*   data: d[i][t] | fam[i], nf | K[a][b] | Ks[t][a][b] | Vs[t][l][i] | g, pl, w[t][l], tn[t][l], td;   *)
 (*   obs = sequence of [enc |-> "subset"|"integer"|"binary"|"real"|"evalfn", vals |-> sequence of        *)
 (*   <<num, den>>, ...]; norm-valued components are logged squared by the harness.                        *)
@@ -18,6 +18,9 @@ Latent(k) ==
       [] k.fam = "ocs"    -> [t \in 1..(1 + Len(k.d[1])) |-> IF t = 1 THEN Quad(k.c, k.K) ELSE Lin(k.c, k.d, t - 1)]
       [] k.fam = "l2"     -> [t \in 1..Len(k.Ks) |-> Quad(k.c, k.Ks[t])]
       [] k.fam = "l1"     -> [t \in 1..Len(k.Vs) |-> L1(k.c, k.Vs[t])]
+      [] k.fam = "pau"    -> [t \in 1..Len(k.w) |-> Pau(k.c, k.g, k.pl, k.w[t], k.tn[t], k.td)]
+      [] k.fam = "mogs"   -> [t \in 1..(2 * Len(k.w)) |-> IF t <= Len(k.w) THEN Pau(k.c, k.g, k.pl, k.w[t], k.tn[t], k.td)
+                                                          ELSE Pafd(k.c, k.g, k.pl, k.w[t - Len(k.w)], k.tn[t - Len(k.w)], k.td)]
       [] OTHER            -> [t \in 1..Len(k.w) |-> Pafd(k.c, k.g, k.pl, k.w[t], k.tn[t], k.td)]
 ExpectedObj(k, o) ==
     LET lat == Latent(k) IN
